@@ -8,7 +8,9 @@
 (* `pre` is the projection of the real array the call was made on (= the result of   *)
 (* the previous call of the chain), so every step of every chain is judged by the    *)
 (* property-level FOFailing of FieldOps.tla.  Failing clauses of a form of passing   *)
-(* names that the docstrings do not document are marked "nongating/".               *)
+(* names that the docstrings do not document are marked "nongating/", those of steps *)
+(* that involve a field type outside the quantifier (dates, time spans, python       *)
+(* objects) "outside/".                                                              *)
 EXTENDS FieldOps, Json, IOUtils
 
 VARIABLES blk, tid
@@ -24,7 +26,8 @@ PickTrace == blk > 0 /\ tid = 0
 Next == PickBlock \/ PickTrace
 
 FailingRec(r) ==
-    {(IF FOGating(r.op) THEN "" ELSE "nongating/") \o cl : cl \in FOFailing(r.pre, r.op, r.obs)}
+    {(IF ~FOInsideTypes(r.pre, r.op) THEN "outside/" ELSE IF FOGating(r.op) THEN "" ELSE "nongating/") \o cl :
+        cl \in FOFailing(r.pre, r.op, r.obs)}
 
 Check == tid > 0 =>
     LET r == Traces[tid]  f == FailingRec(r)
